@@ -150,7 +150,9 @@ class MarkingDefinition(_STIXBase20, _MarkingsMixin):
             if not isinstance(kwargs['definition'], marking_type):
                 defn = _get_dict(kwargs['definition'])
                 kwargs['definition'] = marking_type(
-                    allow_custom=kwargs.get('allow_custom', False), **defn
+                    allow_custom=kwargs.get('allow_custom', False),
+                    interoperability=kwargs.get('interoperability', False),
+                    **defn
                 )
 
         super(MarkingDefinition, self).__init__(**kwargs)
